@@ -28,7 +28,7 @@ func (fr *Frame) to64(term string, t types.Type) string {
 	if !ok {
 		panic(genErr("index of non-integer type " + t.String()))
 	}
-	if w == 64 {
+	if w == 64 || fr.g.intMode {
 		return term
 	}
 	if signed {
@@ -79,13 +79,13 @@ func (fr *Frame) instr(in ssa.Instruction, h Heap) Heap {
 		switch t := x.X.Type().Underlying().(type) {
 		case *types.Slice:
 			sv := fr.val(x.X).T
-			fr.oblig("bounds", "safety", "", fmt.Sprintf("(bvult %s (s_len %s))", idx, sv), "index in range: "+x.String(), x.Pos())
-			abs := g.define(fr.prefix+"ix", idxSort, fmt.Sprintf("(bvadd (s_off %s) %s)", sv, idx))
+			fr.oblig("bounds", "safety", "", g.inRange(idx, "(s_len "+sv+")"), "index in range: "+x.String(), x.Pos())
+			abs := g.define(fr.prefix+"ix", g.IS(), g.iadd("(s_off "+sv+")", idx))
 			fr.vals[x] = &Val{A: &Addr{Kind: 1, Base: fmt.Sprintf("(s_arr %s)", sv), Idx: abs, T: t.Elem()}}
 		case *types.Pointer:
 			at := t.Elem().Underlying().(*types.Array)
 			base := fr.addrOf(x.X)
-			fr.oblig("bounds", "safety", "", fmt.Sprintf("(bvult %s %s)", idx, bvInt(at.Len(), 64)), "index in range: "+x.String(), x.Pos())
+			fr.oblig("bounds", "safety", "", g.inRange(idx, g.ilit(at.Len())), "index in range: "+x.String(), x.Pos())
 			if base.Kind == 0 && len(base.Sels) == 0 {
 				// array object rooted in the element heap
 				fr.nilCheck(base, x.Pos(), x.String())
@@ -102,11 +102,11 @@ func (fr *Frame) instr(in ssa.Instruction, h Heap) Heap {
 		xv := fr.val(x.X).T
 		switch t := x.X.Type().Underlying().(type) {
 		case *types.Array:
-			fr.oblig("bounds", "safety", "", fmt.Sprintf("(bvult %s %s)", idx, bvInt(t.Len(), 64)), "index in range: "+x.String(), x.Pos())
+			fr.oblig("bounds", "safety", "", g.inRange(idx, g.ilit(t.Len())), "index in range: "+x.String(), x.Pos())
 			fr.vals[x] = fr.wrap(g.define(fr.prefix+x.Name(), g.sortOf(x.Type()), fmt.Sprintf("(select %s %s)", xv, idx)), x.Type())
 		case *types.Basic: // string
-			fr.oblig("bounds", "safety", "", fmt.Sprintf("(bvult %s (slen %s))", idx, xv), "index in range: "+x.String(), x.Pos())
-			fr.vals[x] = &Val{T: g.define(fr.prefix+x.Name(), "(_ BitVec 8)", fmt.Sprintf("(sat %s %s)", xv, idx))}
+			fr.oblig("bounds", "safety", "", g.inRange(idx, "(slen "+xv+")"), "index in range: "+x.String(), x.Pos())
+			fr.vals[x] = &Val{T: g.define(fr.prefix+x.Name(), g.byteSort(), fmt.Sprintf("(sat %s %s)", xv, idx))}
 		default:
 			panic(genErr("Index on " + x.X.Type().String()))
 		}
@@ -154,13 +154,13 @@ func (fr *Frame) instr(in ssa.Instruction, h Heap) Heap {
 	case *ssa.MakeSlice:
 		ln := fr.to64(fr.val(x.Len).T, x.Len.Type())
 		cp := fr.to64(fr.val(x.Cap).T, x.Cap.Type())
-		fr.oblig("makeslice", "safety", "", and(fmt.Sprintf("(bvsle #x0000000000000000 %s)", ln), fmt.Sprintf("(bvsle %s %s)", ln, cp), fmt.Sprintf("(bvsle %s #x0000ffffffffffff)", cp)), "make: len/cap in range", x.Pos())
+		fr.oblig("makeslice", "safety", "", and(g.ile(g.ilit(0), ln), g.ile(ln, cp), g.ile(cp, g.maxLen())), "make: len/cap in range", x.Pos())
 		r, nh := fr.freshRef(h, "mkslice_"+x.Name())
 		el := x.Type().Underlying().(*types.Slice).Elem()
 		name, srt := g.elemArrName(el)
 		arr := g.heapArr(nh, name, srt)
-		nh[name] = g.define(name, srt, fmt.Sprintf("(store %s %s ((as const (Array %s %s)) %s))", arr, r, idxSort, g.sortOf(el), g.zero(el)))
-		fr.vals[x] = &Val{T: g.define(fr.prefix+x.Name(), "Slice", fmt.Sprintf("(mk_slice %s #x0000000000000000 %s %s)", r, ln, cp))}
+		nh[name] = g.define(name, srt, fmt.Sprintf("(store %s %s ((as const (Array %s %s)) %s))", arr, r, g.IS(), g.sortOf(el), g.zero(el)))
+		fr.vals[x] = &Val{T: g.define(fr.prefix+x.Name(), "Slice", fmt.Sprintf("(mk_slice %s %s %s %s)", r, g.ilit(0), ln, cp))}
 		fr.allocEvent(x, ln, el)
 		return nh
 	case *ssa.MakeMap:
@@ -170,7 +170,7 @@ func (fr *Frame) instr(in ssa.Instruction, h Heap) Heap {
 		darr := g.heapArr(nh, d, g.heapSort[d])
 		nh[d] = g.define(d, g.heapSort[d], fmt.Sprintf("(store %s %s ((as const (Array %s Bool)) false))", darr, r, g.sortOf(mt.Key())))
 		carr := g.heapArr(nh, c, g.heapSort[c])
-		nh[c] = g.define(c, g.heapSort[c], fmt.Sprintf("(store %s %s #x0000000000000000)", carr, r))
+		nh[c] = g.define(c, g.heapSort[c], fmt.Sprintf("(store %s %s %s)", carr, r, g.ilit(0)))
 		fr.vals[x] = &Val{T: r}
 		return nh
 	case *ssa.MakeChan:
@@ -275,10 +275,10 @@ func (fr *Frame) unop(x *ssa.UnOp, h Heap) Heap {
 		if isFloat(x.Type()) {
 			fr.vals[x] = &Val{T: fr.uf("fneg", x.Type(), x.X)}
 		} else {
-			fr.vals[x] = &Val{T: g.define(fr.prefix+x.Name(), g.sortOf(x.Type()), fmt.Sprintf("(bvneg %s)", fr.val(x.X).T))}
+			fr.vals[x] = &Val{T: fr.negate(x, fr.val(x.X).T)}
 		}
 	case token.XOR:
-		fr.vals[x] = &Val{T: g.define(fr.prefix+x.Name(), g.sortOf(x.Type()), fmt.Sprintf("(bvnot %s)", fr.val(x.X).T))}
+		fr.vals[x] = &Val{T: fr.bitnot(x, fr.val(x.X).T)}
 	case token.ARROW:
 		fr.vals[x] = fr.symbolic("recv_"+x.Name(), x.Type())
 	default:
@@ -298,98 +298,6 @@ func (fr *Frame) uf(op string, res types.Type, args ...ssa.Value) string {
 	name := "uf$" + op + "$" + sanitize(strings.Join(sorts, "_"))
 	g.decl("fun:"+name, fmt.Sprintf("(declare-fun %s (%s) %s)", name, strings.Join(sorts, " "), g.sortOf(res)))
 	return fmt.Sprintf("(%s %s)", name, strings.Join(terms, " "))
-}
-
-func (fr *Frame) binop(x *ssa.BinOp) *Val {
-	g := fr.g
-	a, b := fr.val(x.X), fr.val(x.Y)
-	t := x.X.Type()
-	res := func(term string) *Val {
-		return &Val{T: g.define(fr.prefix+x.Name(), g.sortOf(x.Type()), term)}
-	}
-	// comparisons on non-integers
-	if x.Op == token.EQL || x.Op == token.NEQ {
-		var eq string
-		switch {
-		case isFloat(t):
-			eq = fr.uf("feq", types.Typ[types.Bool], x.X, x.Y)
-		default:
-			at, bt := a.T, b.T
-			if at == "" && a.A != nil {
-				at = g.ptrTerm(a.A)
-			}
-			if bt == "" && b.A != nil {
-				bt = g.ptrTerm(b.A)
-			}
-			eq = fmt.Sprintf("(= %s %s)", at, bt)
-		}
-		if x.Op == token.NEQ {
-			eq = not(eq)
-		}
-		return res(eq)
-	}
-	if isFloat(t) {
-		return res(fr.uf("f"+opName(x.Op), x.Type(), x.X, x.Y))
-	}
-	if isString(t) {
-		switch x.Op {
-		case token.ADD:
-			r := g.fresh(fr.prefix+"concat", "Str")
-			g.defs = append(g.defs, fmt.Sprintf("(= (slen %s) (bvadd (slen %s) (slen %s)))", r, a.T, b.T))
-			g.defs = append(g.defs, fmt.Sprintf("(forall ((i (_ BitVec 64))) (! (= (sat %s i) (ite (bvult i (slen %s)) (sat %s i) (sat %s (bvsub i (slen %s))))) :pattern ((sat %s i))))", r, a.T, a.T, b.T, a.T, r))
-			return &Val{T: r}
-		default:
-			return res(fr.uf("str"+opName(x.Op), x.Type(), x.X, x.Y))
-		}
-	}
-	if isBool(t) {
-		switch x.Op {
-		case token.AND, token.LAND:
-			return res(and(a.T, b.T))
-		case token.OR, token.LOR:
-			return res(or(a.T, b.T))
-		}
-	}
-	w, signed, ok := intInfo(t)
-	if !ok {
-		panic(genErr(fmt.Sprintf("binop %s on %s", x.Op, t)))
-	}
-	switch x.Op {
-	case token.ADD:
-		return res(fmt.Sprintf("(bvadd %s %s)", a.T, b.T))
-	case token.SUB:
-		return res(fmt.Sprintf("(bvsub %s %s)", a.T, b.T))
-	case token.MUL:
-		return res(fmt.Sprintf("(bvmul %s %s)", a.T, b.T))
-	case token.QUO, token.REM:
-		fr.oblig("div", "safety", "", fmt.Sprintf("(not (= %s %s))", b.T, bvInt(0, w)), "division by zero: "+x.String(), x.Pos())
-		op := map[bool]map[token.Token]string{true: {token.QUO: "bvsdiv", token.REM: "bvsrem"}, false: {token.QUO: "bvudiv", token.REM: "bvurem"}}[signed][x.Op]
-		return res(fmt.Sprintf("(%s %s %s)", op, a.T, b.T))
-	case token.AND:
-		return res(fmt.Sprintf("(bvand %s %s)", a.T, b.T))
-	case token.OR:
-		return res(fmt.Sprintf("(bvor %s %s)", a.T, b.T))
-	case token.XOR:
-		return res(fmt.Sprintf("(bvxor %s %s)", a.T, b.T))
-	case token.AND_NOT:
-		return res(fmt.Sprintf("(bvand %s (bvnot %s))", a.T, b.T))
-	case token.SHL, token.SHR:
-		cw, csigned, _ := intInfo(x.Y.Type())
-		cnt := b.T
-		if csigned {
-			fr.oblig("shift", "safety", "", fmt.Sprintf("(bvsge %s %s)", cnt, bvInt(0, cw)), "negative shift count: "+x.String(), x.Pos())
-		}
-		return res(shiftTerm(x.Op == token.SHL, signed, w, a.T, cnt, cw))
-	case token.LSS, token.LEQ, token.GTR, token.GEQ:
-		op := map[token.Token]string{token.LSS: "lt", token.LEQ: "le", token.GTR: "gt", token.GEQ: "ge"}[x.Op]
-		if signed {
-			op = "bvs" + op
-		} else {
-			op = "bvu" + op
-		}
-		return res(fmt.Sprintf("(%s %s %s)", op, a.T, b.T))
-	}
-	panic(genErr("binop " + x.Op.String()))
 }
 
 func opName(op token.Token) string {
@@ -451,76 +359,6 @@ func convInt(term string, fw int, fsigned bool, tw int) string {
 	return fmt.Sprintf("((_ zero_extend %d) %s)", tw-fw, term)
 }
 
-func (fr *Frame) convert(x *ssa.Convert, h Heap) Heap {
-	g := fr.g
-	from, to := x.X.Type(), x.Type()
-	v := fr.val(x.X)
-	fw, fs, fint := intInfo(from)
-	tw, _, tint := intInfo(to)
-	switch {
-	case fint && tint:
-		fr.vals[x] = &Val{T: g.define(fr.prefix+x.Name(), g.sortOf(to), convInt(v.T, fw, fs, tw))}
-	case isString(to) && fint:
-		fr.vals[x] = fr.symbolic("runestr_"+x.Name(), to)
-	case isString(to):
-		// []byte / []rune -> string
-		if sl, ok := from.Underlying().(*types.Slice); ok {
-			if w, _, _ := intInfo(sl.Elem()); w == 8 {
-				s := g.fresh(fr.prefix+"str_"+x.Name(), "Str")
-				name, srt := g.elemArrName(sl.Elem())
-				arr := g.heapArr(h, name, srt)
-				g.defs = append(g.defs, fmt.Sprintf("(= (slen %s) (s_len %s))", s, v.T))
-				g.defs = append(g.defs, fmt.Sprintf("(forall ((i (_ BitVec 64))) (! (=> (bvult i (s_len %s)) (= (sat %s i) (select (select %s (s_arr %s)) (bvadd (s_off %s) i)))) :pattern ((sat %s i))))", v.T, s, arr, v.T, v.T, s))
-				fr.vals[x] = &Val{T: s}
-				return h
-			}
-			fr.vals[x] = fr.symbolic("runesstr_"+x.Name(), to)
-			return h
-		}
-		fr.vals[x] = &Val{T: v.T}
-	case isString(from):
-		if sl, ok := to.Underlying().(*types.Slice); ok {
-			if w, _, _ := intInfo(sl.Elem()); w == 8 {
-				r, nh := fr.freshRef(h, "bytes_"+x.Name())
-				name, srt := g.elemArrName(sl.Elem())
-				arr := g.heapArr(nh, name, srt)
-				na := g.fresh(fr.prefix+"bytesarr", "(Array "+idxSort+" (_ BitVec 8))")
-				g.defs = append(g.defs, fmt.Sprintf("(forall ((i (_ BitVec 64))) (! (=> (bvult i (slen %s)) (= (select %s i) (sat %s i))) :pattern ((select %s i))))", v.T, na, v.T, na))
-				nh[name] = g.define(name, srt, fmt.Sprintf("(store %s %s %s)", arr, r, na))
-				fr.vals[x] = &Val{T: g.define(fr.prefix+x.Name(), "Slice", fmt.Sprintf("(mk_slice %s #x0000000000000000 (slen %s) (slen %s))", r, v.T, v.T))}
-				return nh
-			}
-			fr.vals[x] = fr.symbolic("runes_"+x.Name(), to)
-			return h
-		}
-		fr.vals[x] = &Val{T: v.T}
-	case isFloat(from) || isFloat(to):
-		if isFloat(from) && isFloat(to) && g.sortOf(from) == g.sortOf(to) {
-			fr.vals[x] = &Val{T: v.T}
-		} else {
-			fr.vals[x] = &Val{T: g.define(fr.prefix+x.Name(), g.sortOf(to), fr.uf("fconv$"+sanitize(g.sortOf(to)), to, x.X))}
-		}
-	default:
-		// pointer <-> unsafe.Pointer and similar representation-preserving conversions
-		if g.sortOf(from) == g.sortOf(to) {
-			t := v.T
-			if t == "" && v.A != nil {
-				t = g.ptrTerm(v.A)
-			}
-			nv := fr.wrap(t, to)
-			if v.A != nil {
-				if _, isPtr := to.Underlying().(*types.Pointer); !isPtr {
-					nv.A = v.A // keep provenance through unsafe.Pointer
-				}
-			}
-			fr.vals[x] = nv
-		} else {
-			panic(genErr(fmt.Sprintf("convert %s -> %s", from, to)))
-		}
-	}
-	return h
-}
-
 func (fr *Frame) typeAssert(x *ssa.TypeAssert, h Heap) Heap {
 	g := fr.g
 	iv := fr.val(x.X).T
@@ -567,7 +405,7 @@ func (fr *Frame) lookup(x *ssa.Lookup, h Heap) Heap {
 	// string index
 	idx := fr.to64(fr.val(x.Index).T, x.Index.Type())
 	s := fr.val(x.X).T
-	fr.oblig("bounds", "safety", "", fmt.Sprintf("(bvult %s (slen %s))", idx, s), "string index in range", x.Pos())
+	fr.oblig("bounds", "safety", "", g.inRange(idx, "(slen "+s+")"), "string index in range", x.Pos())
 	fr.vals[x] = &Val{T: fmt.Sprintf("(sat %s %s)", s, idx)}
 	return h
 }
@@ -584,33 +422,6 @@ func (fr *Frame) mapUpdate(x *ssa.MapUpdate, h Heap) Heap {
 	}
 	fr.oblig("nilmap", "safety", "", fmt.Sprintf("(not (= %s 0))", m), "assignment to entry in nil map", x.Pos())
 	return fr.mapStore(h, mt, m, k, v)
-}
-
-func (fr *Frame) mapStore(h Heap, mt *types.Map, m, k, v string) Heap {
-	g := fr.g
-	d, va, c := g.mapArrNames(mt)
-	nh := h.clone()
-	darr := g.heapArr(h, d, g.heapSort[d])
-	varr := g.heapArr(h, va, g.heapSort[va])
-	carr := g.heapArr(h, c, g.heapSort[c])
-	had := fmt.Sprintf("(select (select %s %s) %s)", darr, m, k)
-	nh[d] = g.define(d, g.heapSort[d], fmt.Sprintf("(store %s %s (store (select %s %s) %s true))", darr, m, darr, m, k))
-	nh[va] = g.define(va, g.heapSort[va], fmt.Sprintf("(store %s %s (store (select %s %s) %s %s))", varr, m, varr, m, k, v))
-	nh[c] = g.define(c, g.heapSort[c], fmt.Sprintf("(store %s %s (ite %s (select %s %s) (bvadd (select %s %s) #x0000000000000001)))", carr, m, had, carr, m, carr, m))
-	return nh
-}
-
-func (fr *Frame) mapDelete(h Heap, mt *types.Map, m, k string) Heap {
-	g := fr.g
-	d, _, c := g.mapArrNames(mt)
-	nh := h.clone()
-	darr := g.heapArr(h, d, g.heapSort[d])
-	carr := g.heapArr(h, c, g.heapSort[c])
-	had := fmt.Sprintf("(select (select %s %s) %s)", darr, m, k)
-	// delete on a nil map is a no-op
-	nh[d] = g.define(d, g.heapSort[d], fmt.Sprintf("(ite (= %s 0) %s (store %s %s (store (select %s %s) %s false)))", m, darr, darr, m, darr, m, k))
-	nh[c] = g.define(c, g.heapSort[c], fmt.Sprintf("(ite (= %s 0) %s (store %s %s (ite %s (bvsub (select %s %s) #x0000000000000001) (select %s %s))))", m, carr, carr, m, had, carr, m, carr, m))
-	return nh
 }
 
 func (fr *Frame) next(x *ssa.Next, h Heap) Heap {
@@ -639,50 +450,6 @@ func (fr *Frame) next(x *ssa.Next, h Heap) Heap {
 	}
 	fr.vals[x] = &Val{Tup: []*Val{{T: okv}, fr.wrap(k, mt.Key()), fr.wrap(v, mt.Elem())}}
 	return nh
-}
-
-func (fr *Frame) sliceOp(x *ssa.Slice, h Heap) Heap {
-	g := fr.g
-	z := bvInt(0, 64)
-	get := func(v ssa.Value, def string) string {
-		if v == nil {
-			return def
-		}
-		return fr.to64(fr.val(v).T, v.Type())
-	}
-	switch t := x.X.Type().Underlying().(type) {
-	case *types.Slice:
-		s := fr.val(x.X).T
-		lo := get(x.Low, z)
-		hi := get(x.High, fmt.Sprintf("(s_len %s)", s))
-		mx := get(x.Max, fmt.Sprintf("(s_cap %s)", s))
-		fr.oblig("slice", "safety", "", and(fmt.Sprintf("(bvule %s %s)", lo, hi), fmt.Sprintf("(bvule %s %s)", hi, mx), fmt.Sprintf("(bvule %s (s_cap %s))", mx, s)), "slice bounds in range: "+x.String(), x.Pos())
-		fr.vals[x] = &Val{T: g.define(fr.prefix+x.Name(), "Slice", fmt.Sprintf("(mk_slice (s_arr %s) (bvadd (s_off %s) %s) (bvsub %s %s) (bvsub %s %s))", s, s, lo, hi, lo, mx, lo))}
-	case *types.Basic: // string
-		s := fr.val(x.X).T
-		lo := get(x.Low, z)
-		hi := get(x.High, fmt.Sprintf("(slen %s)", s))
-		fr.oblig("slice", "safety", "", and(fmt.Sprintf("(bvule %s %s)", lo, hi), fmt.Sprintf("(bvule %s (slen %s))", hi, s)), "string slice bounds in range", x.Pos())
-		r := g.fresh(fr.prefix+"substr", "Str")
-		g.defs = append(g.defs, fmt.Sprintf("(=> (and (bvule %s %s) (bvule %s (slen %s))) (= (slen %s) (bvsub %s %s)))", lo, hi, hi, s, r, hi, lo))
-		g.defs = append(g.defs, fmt.Sprintf("(forall ((i (_ BitVec 64))) (! (=> (bvult i (bvsub %s %s)) (= (sat %s i) (sat %s (bvadd %s i)))) :pattern ((sat %s i))))", hi, lo, r, s, lo, r))
-		fr.vals[x] = &Val{T: r}
-	case *types.Pointer:
-		at := t.Elem().Underlying().(*types.Array)
-		a := fr.addrOf(x.X)
-		if a.Kind != 0 || len(a.Sels) != 0 {
-			panic(genErr("slicing an array embedded in another object is outside the subset"))
-		}
-		n := bvInt(at.Len(), 64)
-		lo := get(x.Low, z)
-		hi := get(x.High, n)
-		mx := get(x.Max, n)
-		fr.oblig("slice", "safety", "", and(fmt.Sprintf("(bvule %s %s)", lo, hi), fmt.Sprintf("(bvule %s %s)", hi, mx), fmt.Sprintf("(bvule %s %s)", mx, n)), "slice bounds in range", x.Pos())
-		fr.vals[x] = &Val{T: g.define(fr.prefix+x.Name(), "Slice", fmt.Sprintf("(mk_slice %s %s (bvsub %s %s) (bvsub %s %s))", a.Base, lo, hi, lo, mx, lo))}
-	default:
-		panic(genErr("slice of " + x.X.Type().String()))
-	}
-	return h
 }
 
 func (fr *Frame) runDefers(x *ssa.RunDefers, h Heap) Heap {
